@@ -6,7 +6,7 @@ use vbase::gens;
 use vbase::refjson;
 use vbase::{ensure, fail};
 
-pub const RULE: &str = "cases are numeric values and raw-number literals: f32 bit patterns (2^32 exhaustive in the thorough tier; in quick every exponent x boundary mantissas plus a strided+random sample), f64 bit patterns (every binary exponent x mantissa patterns {0,1,all-ones,single bits,random}, +-3 ulps around every power of two and ten, subnormal boundaries, random), all u8/i8/u16/i16 values (exhaustive), boundary and random u32..u128/i32..i128; each value is serialized (to_string, to_vec, and through to_value/Value::from + to_string) and read back into the same type, the bits must be identical and the text a number by the reference grammar. Raw numbers: literals of the C07 generator and malformed candidates, bare and quoted; a RawNumber deserializes iff the literal satisfies the number grammar, as_str()/to_string reproduce it verbatim, as_i64/as_u64/as_f64 equal std parsing. Non-trivial = float whose shortest representation has >= 2 significant digits or an exponent, or integer of >= 10 digits, or any raw literal that is not a plain short integer; distinct by (type, bits).";
+pub const RULE: &str = "cases are numeric values and raw-number literals: f32 bit patterns (2^32 exhaustive in the thorough tier; in quick every exponent x boundary mantissas plus a strided+random sample), f64 bit patterns (every binary exponent x mantissa patterns {0,1,all-ones,single bits,random}, +-3 ulps around every power of two and ten, subnormal boundaries, random), all u8/i8/u16/i16 values (exhaustive), boundary and random u32..u128/i32..i128; each value is serialized (to_string, to_vec, and through to_value/Value::from + to_string) and read back into the same type — bare, behind whitespace, and inside pretty-printed tuples/arrays/maps — the bits must be identical and the text a number by the reference grammar. Raw numbers: literals of the C07 generator and malformed candidates, bare and quoted; a RawNumber deserializes iff the literal satisfies the number grammar, as_str()/to_string reproduce it verbatim, as_i64/as_u64/as_f64 equal std parsing; in a DOM parsed with use_rawnumber every literal is reproduced verbatim, also after the containers holding it were edited, cloned, or the number was moved. Non-trivial = float whose shortest representation has >= 2 significant digits or an exponent, or integer of >= 10 digits, or any raw literal that is not a plain short integer; distinct by (type, bits).";
 pub const ASSUMPTIONS: &[&str] = &["Rust std float/integer parsing is exact", "reference number grammar (RFC 8259)"];
 
 fn nontrivial_text(s: &str) -> bool {
@@ -27,6 +27,18 @@ macro_rules! roundtrip_int {
             Ok(y) => ensure!(y == x, format!("C08/{}/readback", stringify!($t)), "{}{} -> {:?} -> {}", x, stringify!($t), s, y),
             Err(e) => fail!(format!("C08/{}/readback", stringify!($t)), "{}{} -> {:?} -> Err({e})", x, stringify!($t), s),
         }
+        // the same number inside pretty output / behind whitespace reads back too
+        let pretty = sonic_rs::to_string_pretty(&(x, [x, x], std::collections::BTreeMap::from([("k", x)]))).map_err(|e| Fail::new(format!("C08/{}/ser-error", stringify!($t)), format!("{e}")))?;
+        let back: Result<($t, [$t; 2], std::collections::BTreeMap<String, $t>), _> = sonic_rs::from_str(&pretty);
+        match back {
+            Ok((a, b, m)) => ensure!(a == x && b == [x, x] && m.get("k") == Some(&x), format!("C08/{}/readback-pretty", stringify!($t)), "{}{} -> {:?} -> ({a}, {b:?}, {m:?})", x, stringify!($t), pretty),
+            Err(e) => fail!(format!("C08/{}/readback-pretty", stringify!($t)), "{}{} -> {:?} -> Err({e})", x, stringify!($t), pretty),
+        }
+        let padded = format!(" \n\t{s}\r\n ");
+        match sonic_rs::from_str::<$t>(&padded) {
+            Ok(y) => ensure!(y == x, format!("C08/{}/readback-padded", stringify!($t)), "{}{} -> {:?} -> {}", x, stringify!($t), padded, y),
+            Err(e) => fail!(format!("C08/{}/readback-padded", stringify!($t)), "{}{} -> {:?} -> Err({e})", x, stringify!($t), padded),
+        }
         if nontrivial_text(&s) {
             $obs.nt();
         }
@@ -44,6 +56,12 @@ fn f64_case(x: f64, obs: &mut Obs) -> Result<(), Fail> {
     ensure!(back.to_bits() == x.to_bits(), "C08/f64/readback", "{x:?} (bits {:#x}) -> {:?} -> {back:?} (bits {:#x})", x.to_bits(), s, back.to_bits());
     let v = sonic_rs::to_vec(&x).unwrap_or_default();
     ensure!(v == s.as_bytes(), "C08/f64/to_vec", "to_vec != to_string for {x:?}");
+    let pretty = sonic_rs::to_string_pretty(&(x, [x, x], std::collections::BTreeMap::from([("k", x)]))).map_err(|e| Fail::new("C08/f64/ser-error", format!("{e}")))?;
+    let (a, b, m): (f64, [f64; 2], std::collections::BTreeMap<String, f64>) = sonic_rs::from_str(&pretty).map_err(|e| Fail::new("C08/f64/readback-pretty", format!("{x:?} -> {pretty:?} -> Err({e})")))?;
+    ensure!([a, b[0], b[1], m["k"]].iter().all(|y| y.to_bits() == x.to_bits()), "C08/f64/readback-pretty", "{x:?} -> {pretty:?} -> ({a:?}, {b:?}, {m:?})");
+    let padded = format!(" \n\t{s}\r\n ");
+    let y: f64 = sonic_rs::from_str(&padded).map_err(|e| Fail::new("C08/f64/readback-padded", format!("{x:?} -> {padded:?} -> Err({e})")))?;
+    ensure!(y.to_bits() == x.to_bits(), "C08/f64/readback-padded", "{x:?} -> {padded:?} -> {y:?}");
     // through the DOM
     let dom = Value::try_from(x).map_err(|e| Fail::new("C08/f64/dom", format!("Value::try_from({x:?}) failed: {e}")))?;
     ensure!(dom.as_f64().map(f64::to_bits) == Some(x.to_bits()), "C08/f64/dom", "Value::try_from({x:?}).as_f64() = {:?}", dom.as_f64());
@@ -69,6 +87,9 @@ fn f32_case(x: f32, obs: &mut Obs) -> Result<(), Fail> {
     ensure!(refjson::is_number(s.as_bytes()), "C08/f32/not-a-number", "to_string({x:?}f32) = {:?} is not a JSON number", s);
     let back: f32 = sonic_rs::from_str(&s).map_err(|e| Fail::new("C08/f32/readback", format!("{x:?} -> {s:?} -> Err({e})")))?;
     ensure!(back.to_bits() == x.to_bits(), "C08/f32/readback", "{x:?}f32 (bits {:#x}) -> {:?} -> {back:?} (bits {:#x})", x.to_bits(), s, back.to_bits());
+    let pretty = sonic_rs::to_string_pretty(&(x, [x, x])).map_err(|e| Fail::new("C08/f32/ser-error", format!("{e}")))?;
+    let (a, b): (f32, [f32; 2]) = sonic_rs::from_str(&pretty).map_err(|e| Fail::new("C08/f32/readback-pretty", format!("{x:?} -> {pretty:?} -> Err({e})")))?;
+    ensure!([a, b[0], b[1]].iter().all(|y| y.to_bits() == x.to_bits()), "C08/f32/readback-pretty", "{x:?}f32 -> {pretty:?} -> ({a:?}, {b:?})");
     if nontrivial_text(&s) {
         obs.nt();
     }
@@ -183,6 +204,27 @@ pub fn oracle_raw(case: &[u8], obs: &mut Obs) -> Result<(), Fail> {
         let out = sonic_rs::to_string(&v).map_err(|e| Fail::new("C08/raw/dom/ser", format!("{e}")))?;
         let want = format!("{{\"a\":[{lit},{lit}]}}");
         ensure!(out == want, "C08/raw/dom/verbatim", "use_rawnumber DOM of {text:?} serializes to {out:?}");
+        // ... also after the containers holding them were edited, cloned or the number moved
+        use sonic_rs::JsonValueMutTrait;
+        let text = format!("{{\"o\":{{\"n\":{lit}}},\"a\":[{lit},[{lit}]]}}");
+        let mut v: Value = sonic_rs::Deserializer::from_str(&text).use_rawnumber().deserialize().map_err(|e| Fail::new("C08/raw/dom/rejects-valid", format!("use_rawnumber parse of {text:?}: {e}")))?;
+        let keep = v.clone();
+        v["o"].as_object_mut().unwrap().insert("z", true);
+        v["a"].as_array_mut().unwrap().push(Value::from(false));
+        v["a"][1].as_array_mut().unwrap().insert(0, Value::new_null());
+        let moved = v["a"][0].clone();
+        v.as_object_mut().unwrap().insert("m", moved);
+        // (member order of an edited object is not promised: look at the parts)
+        let part = |x: &Value| sonic_rs::to_string(x).map_err(|e| Fail::new("C08/raw/dom/ser", format!("{e}")));
+        let (pa, pn, pm) = (part(&v["a"])?, part(&v["o"]["n"])?, part(&v["m"])?);
+        ensure!(pa == format!("[{lit},[null,{lit}],false]") && pn == lit && pm == lit, "C08/raw/dom/verbatim-after-edit", "use_rawnumber DOM of {text:?} after edits: a = {pa:?}, o.n = {pn:?}, m = {pm:?}");
+        let out = part(&v)?;
+        ensure!(refjson::accept(out.as_bytes()).skip() && out.matches(lit).count() >= 4, "C08/raw/dom/verbatim-after-edit", "use_rawnumber DOM of {text:?} after edits serializes to {out:?}");
+        for n in [&v["o"]["n"], &v["a"][0], &v["a"][1][1], &v["m"]] {
+            ensure!(n.is_number() && n.as_raw_number().map(|r| r.as_str().to_string()).as_deref() == Some(lit), "C08/raw/dom/verbatim-after-edit", "after edits a raw number of {text:?} reports type {:?}, as_raw_number {:?}", n.get_type(), n.as_raw_number().map(|r| r.as_str().to_string()));
+        }
+        let kept = sonic_rs::to_string(&keep).map_err(|e| Fail::new("C08/raw/dom/ser", format!("{e}")))?;
+        ensure!(kept == format!("{{\"o\":{{\"n\":{lit}}},\"a\":[{lit},[{lit}]]}}"), "C08/raw/dom/verbatim-after-edit", "the clone taken before the edits serializes to {kept:?}");
     }
     Ok(())
 }
